@@ -32,6 +32,7 @@ def schedules_for(project, rng, k):
     scheds = [
         {"cfg": {"njob": 1, "resources": "gpu:2,tpu:2"}, "policy": "fifo", "delay": []},
         {"cfg": {"njob": 4, "resources": "gpu:2,tpu:2"}, "policy": "lifo", "delay": []},
+        {"cfg": {"njob": 3, "resources": "gpu:2,tpu:2"}, "policy": "fifo", "delay": []},
         {"cfg": {"njob": 2, "resources": "gpu:2,tpu:2"}, "policy": "random", "delay": []},
         {"cfg": {"njob": 3, "resources": "gpu:4,tpu:2"}, "policy": "random", "delay": []},
     ]
